@@ -5,6 +5,7 @@ import os, sys
 sys.path.insert(0, os.path.join(os.path.dirname(os.path.abspath(__file__)), 'tools'))
 import layout
 import vec
+import cmp as cmpu
 
 AAP = 'cntgs::detail::AllocatorAwarePointer<.*>::'
 AAP_UNITS = [
@@ -56,6 +57,20 @@ PROPERTY_META = {
     'C16': dict(claimed=True, level='proof',
                 text='Every contract of emplace_back, pop_back, clear, erase, reserve (not exceeding capacity), swap and move construction includes: allocator call counters unchanged, block pointer and capacity unchanged (resp. exchanged), and an assigns clause that excludes everything in front of the modified position; AllocatorAwarePointer swap/move/release/reset are proved (unbounded) not to allocate.',
                 note='AllocatorAwarePointer level is a proof.' + VEC_NOTE, design_ref='DESIGN.md 6 C16'),
+    'C19': dict(claimed=True, level='other',
+                text='No schedule is explored. What is decided is the sequential fact the property rests on: every const operation under contract (size, empty, capacity, memory_consumption, data_begin, data_end, operator[], load_element_at, reference construction and accessors, copy construction from a vector) is checked by CBMC against an assigns clause that contains no pre-existing memory (only the result object and, for copying, freshly allocated blocks and the allocator model), so concurrent const calls perform no writes to shared state and cannot race; copies share no block with their source (postcondition of copy construction).',
+                note='Frame conditions only: interleavings, the C++ memory model, thread-safety of the user allocator and value types are assumptions. Const comparison operators and element construction from references are covered where their units exist (see evidence).',
+                explanation='Proof of empty write frames (dfcc assigns-clause checking of every store executed by a const operation), not an exploration of interleavings.',
+                assumptions=['data-race freedom follows from write-freedom only under the C++ memory model for plain loads', 'the allocator and value types used by copy construction are themselves thread-safe'],
+                design_ref='DESIGN.md 6 C19'),
+    'C13': dict(claimed=True, level='model_checking',
+                text='The real ElementTraits::equal and the reference operators == / != are verified against a contract that says: result == (same span sizes AND every field value equal), with every byte of both elements (alignment padding included) nondeterministic, for lists on the memcmp path and on the element-wise path; reflexivity and symmetry are checked on the real functions. Span lengths are bounded (<= 3 items) because the comparison loops are unwound.',
+                note='Bounded: span items <= 3 per side, loops (memcmp model, std::equal) unwound 32 times with unwinding assertions; floating-point values exclude NaN. Vector == vector is not under contract.',
+                design_ref='DESIGN.md 6 C13'),
+    'C14': dict(claimed=True, level='model_checking',
+                text='Contracts on the real reference operators >, <=, >= state them in terms of the real operator< (a > b == b < a, a <= b == !(b < a), a >= b == !(a < b)); irreflexivity, asymmetry and a < b => a != b are checked on the real operator< / operator== for symbolic element contents including padding.',
+                note='Bounded as C13. Transitivity and the vector-level lexicographical comparison are not under contract.',
+                design_ref='DESIGN.md 6 C14'),
     'C18': dict(claimed=True, level='model_checking',
                 text='The pre-states of all vector-level contracts include never-filled vectors (address table content arbitrary), emptied vectors and capacity 0; size/empty/data_begin/data_end/clear/erase/reserve/swap/constructor contracts are discharged on them with all pointer checks on, so no result depends on an uninitialised table slot.',
                 note='Default-constructed vectors (null table) are not yet covered.' + VEC_NOTE, design_ref='DESIGN.md 6 C18'),
@@ -99,6 +114,14 @@ def units(tier, seed=0):
             us.append(dict(id='lay.%s.%s' % (L.tag, name), tu='lay_' + L.tag, gen=cxx, template_text=txt, vars={}, entry=h,
                            enforce='@F{%s}' % layout.RX[key], replace=[], props=props, layer='elementTraits.hpp/parameterTraits.hpp',
                            kind='proof', config='layout: ' + spec))
+    for spec in cmpu.CMP_LISTS[tier]:
+        txt, L = cmpu.c_unit(spec)
+        cxx = cmpu.cxx_tu(spec)
+        for name, h, key, props in cmpu.CMP_UNITS:
+            us.append(dict(id='cmp.%s.%s' % (L.tag, name), tu='cmp_' + L.tag, gen=cxx, template_text=txt, vars={}, entry=h,
+                           enforce=('@F{%s}' % cmpu.RXC[key]) if key else None, replace=[], props=props, layer='elementTraits.hpp/reference.hpp',
+                           kind='bounded(span items <= 3, loops unwound 32 times)', unwind=32, config='comparison: ' + spec,
+                           expect_classes=['postcondition'] if key else ['assertion']))
     for spec, flags in vec_catalogue(tier):
         for f in flags:
             txt, L = vec.c_unit(spec, f)
